@@ -237,8 +237,10 @@ func isGoEscapeString(v octosql.Value) bool {
 // comparison of decoded output with the value written
 
 type diffs struct {
-	list []string
-	sub  int // sub-second time precision dropped (not judged)
+	list      []string
+	sub       int      // sub-second time precision dropped (not judged)
+	nonfinite []string // NaN / +-Inf not printed faithfully (attributed to its own finding)
+	nfString  int      // NaN / +-Inf printed as a string strconv reads back to the same value (accepted)
 }
 
 func (d *diffs) add(path, what string) {
@@ -304,6 +306,18 @@ func cmpJSON(path string, t octosql.Type, v octosql.Value, dec interface{}, d *d
 			d.add(path, fmt.Sprintf("Int %d printed as %v", want, dec))
 		}
 	case octosql.TypeIDFloat:
+		if math.IsNaN(v.Float) || math.IsInf(v.Float, 0) {
+			// JSON has no number for these. A string that strconv reads back to the same value keeps
+			// the information and is accepted; null (or anything else) is the non-finite finding.
+			if s, ok := dec.(string); ok {
+				if got, err := strconv.ParseFloat(s, 64); err == nil && fileh.FloatEq(got, v.Float) {
+					d.nfString++
+					return
+				}
+			}
+			d.nonfinite = append(d.nonfinite, fmt.Sprintf("%s: Float %s printed as %v", path, strconv.FormatFloat(v.Float, 'g', -1, 64), dec))
+			return
+		}
 		n, ok := dec.(json.Number)
 		if got, err := strconv.ParseFloat(string(n), 64); !ok || err != nil || !fileh.FloatEq(got, v.Float) {
 			d.add(path, fmt.Sprintf("Float %s printed as %v", strconv.FormatFloat(v.Float, 'g', -1, 64), dec))
@@ -512,8 +526,17 @@ func jsonBatch(c *core.Ctx, id string, rng *rand.Rand, nRows int) {
 		if d.sub > 0 {
 			c.Count("inproc/json/subsecond_time_truncated_not_judged", d.sub)
 		}
+		if d.nfString > 0 {
+			c.Count("inproc/json/nonfinite_float_as_string_accepted", d.nfString)
+		}
+		if len(d.nonfinite) > 0 {
+			c.Violation("json-nonfinite-float", "a non-finite float is not printed in a form that decodes back to it: "+strings.Join(d.nonfinite, "; "), replay)
+		}
 		if len(d.list) > 0 {
 			c.Violation("json:value", "the printed line decodes to other values: "+strings.Join(d.list, "; "), replay)
+			continue
+		}
+		if len(d.nonfinite) > 0 {
 			continue
 		}
 		nontrivial(c, "json", fs, row)
